@@ -212,6 +212,23 @@ if os.path.exists(os.path.join(HERE, "lean", "Ivy", "L2", "Lockset.lean")):
         technique="Lean 4 lockset theorem + decide over an access table regenerated from the source (clang AST) + ThreadSanitizer search",
         design="§7 C14")
 
+# post-build additions to the claims (extensions that landed after the first version of each check)
+_TABLES = (" Finite-domain helper functions of the C code used by this property are EXECUTED on their whole domain by an extractor rebuilt from /repo on every "
+           "run; their value tables are regenerated as Lean data and proved equal to the model's definitions (Ivy.L1.TablesAgree, re-exported in the Props file), "
+           "so a change to one of them breaks a proof obligation.")
+for _id, _extra in (("C02", _TABLES), ("C03", _TABLES), ("C04", _TABLES), ("C10", _TABLES), ("C15", _TABLES)):
+    if _id in CLAIMED and os.path.exists(os.path.join(HERE, "lean", "Ivy", "L1", "TablesAgree.lean")):
+        CLAIMED[_id]["text"] += _extra
+if "C05" in CLAIMED and os.path.exists(os.path.join(HERE, "lean", "Ivy", "Props", "C05rat.lean")):
+    CLAIMED["C05"]["text"] += (" Extension (Ivy/Props/C05rat.lean, 11 theorems): a pointer-free structural model of the radix tree itself (lazy allocation, one-level growth, "
+                               "digit descent, remove_level with its break-at-first-NULL loops, deinit) is proved to refine the flat array for every bits >= 1, depth and index, "
+                               "for any history of register/unregister/run_timers, and not to leak across shrink/regrowth (with the seeded 'only child[1] freed' bug as a counter-model).")
+if "C07" in CLAIMED and os.path.exists(os.path.join(HERE, "lean", "Ivy", "Props", "C07progress.lean")):
+    CLAIMED["C07"]["text"] += (" Extension (Ivy/Props/C07progress.lean): under the full kernel contract (reported bits within the requested mask, one-shot kick only when armed, "
+                               "kernel timer only when armed, reported raw descriptors readable) every non-empty wake-up is followed, before the next wait, by a callback or by the "
+                               "consumption of a kick / kernel timer / raw read (wake_progress); the source-aware idle oracle used on implementation logs is proved sound (idle_free); "
+                               "the first-draft spin oracle is proved to admit a false positive (stale kick + stale kernel timer) and sound under an explicit hypothesis.")
+
 NOT_YET = "check not built yet in this round; planned per DESIGN.md §7 (Lean model + theorems + correspondence)"
 
 checks = []
